@@ -780,7 +780,26 @@ class Interp:
         raise Unsupported("binop " + op)
 
     # ---------------- calls
+    def unicode_property(self, name, c):
+        """pest::unicode::<NAME>(c): the ucd-trie tables are not encoded; the set is obtained once per run from the compiled
+        function itself, enumerated over all scalar values by verif-native, and used as a range predicate"""
+        cache = self.P.__dict__.setdefault("_unicode_ranges", {})
+        rs = cache.get(name)
+        if rs is None:
+            import native
+            rep = native.run_lines("unicode-ranges", [name], timeout=600)[0]
+            if not rep.startswith("OK"): raise Unsupported(f"unicode property {name}: {rep[:80]}")
+            rs = [tuple(int(x, 16) for x in r.split("-")) for r in rep[3:].split(",") if r]
+            cache[name] = rs
+        if not is_sym(c):
+            return any(a <= c <= b for a, b in rs)
+        if len(rs) > 400: raise Unsupported(f"unicode property {name} has {len(rs)} ranges: too large to encode")
+        return z3.Or(*[z3.And(z3.UGE(c, a), z3.ULE(c, b)) if a != b else c == a for a, b in rs]) if rs else False
+
     def call(self, callee, key, args):
+        if "unicode::" in key and len(args) == 1:
+            m = re.search(r"(?:^|::)unicode::([A-Z][A-Z0-9_]*)$", key)
+            if m: return self.unicode_property(m.group(1), args[0])
         if key.endswith("::collect") and "collect::<" in callee:
             tgt = callee[callee.rindex("collect::<") + 10:]
             from .summaries import iter_to_list
